@@ -533,7 +533,7 @@ def r8_subst(toks, stats, table, tag="R8"):
 # ------------------------------------------------------------------------------------------------
 # R11: `?` on a fixed list of calls -> explicit early return
 # ------------------------------------------------------------------------------------------------
-def r11_question(toks, stats):
+def r11_question(toks, stats, conv="vx_from"):
     """`EXPR?` where EXPR is a method-call chain statement or let-initialiser:
        `let x = E?;` -> `let x = match E { Ok(v) => v, Err(e) => return Err(vx_from(e)) };`
        `E?;`        -> `match E { Ok(v) => v, Err(e) => return Err(vx_from(e)) };`
@@ -561,7 +561,7 @@ def r11_question(toks, stats):
             j -= 1
         start = j + 1
         expr = toks[start:q]
-        new = T("match") + expr + T("{ Ok(vx_v) => vx_v, Err(vx_e) => return Err(vx_from(vx_e)) }")
+        new = T("match") + expr + T("{ Ok(vx_v) => vx_v, Err(vx_e) => return Err(%s(vx_e)) }" % conv)
         toks[start:q + 1] = new
         stats["R11.question"] = stats.get("R11.question", 0) + 1
 
@@ -992,3 +992,25 @@ def drop_nested_fns(toks, stats):
         if not hit: return toks
         del toks[hit[0]:hit[1] + 1]
         stats["R14.drop_nested_fn"] = stats.get("R14.drop_nested_fn", 0) + 1
+
+
+# R10c: definitional unfolding of Result::map_err with a closure literal
+#   E.map_err(|e| B)  ->  (match E { Ok(vx_v) => Ok(vx_v), Err(e) => Err(B) })
+def r10_result_unfold(toks, stats):
+    while True:
+        m = match_table(toks)
+        hit = -1
+        for i, t in enumerate(toks):
+            if t.s == "." and i + 2 < len(toks) and toks[i + 1].s == "map_err" and toks[i + 2].s == "(":
+                hit = i; break
+        if hit < 0: return toks
+        start = chain_start(toks, m, hit)
+        recv = toks[start:hit]
+        args = split_args(toks, m, hit + 2)
+        close = m[hit + 2]
+        cp = closure_parts(args[0]) if len(args) == 1 else None
+        if cp is None or len(cp[0]) != 1: raise ExtractError("R10: Result::map_err needs a one-parameter closure literal")
+        ps, body = cp
+        new = T("(match") + recv + T("{ Ok(vx_v) => Ok(vx_v), Err(") + ps[0] + T(") => Err(") + body + T(") })")
+        toks[start:close + 1] = new
+        stats["R10.result_map_err"] = stats.get("R10.result_map_err", 0) + 1
